@@ -5,6 +5,7 @@ package main
 import (
 	"fmt"
 	"go/ast"
+	"go/constant"
 	"go/token"
 	"go/types"
 	"sort"
@@ -108,13 +109,14 @@ var staticOracle = []colOracle{
 
 var kindCalls = map[string][]string{
 	"verbatim": {},
-	"float?":   {"parseFloat64"},
-	"float":    {"parseFloat64"},
-	"int?":     {"parseInt32", "parseRouteSortOrder"},
-	"int":      {"strconv.Atoi"},
-	"date":     {"parseTime"},
-	"hms":      {"parseGtfsTimeToDuration"},
-	"seconds":  {"parseInt32"},
+	// module decoders are named by what they convert (signature class), not by their identifier
+	"float?":  {"(string)→(*float64)"},
+	"float":   {"(string)→(*float64)"},
+	"int?":    {"(string)→(*int32)"},
+	"int":     {"strconv.Atoi"},
+	"date":    {"(string)→(time.Time,error)"},
+	"hms":     {"(string)→(time.Duration,bool)"},
+	"seconds": {"(string)→(*int32)"},
 }
 
 // enum digit tables (GTFS reference): column -> digit -> constant name in package gtfs
@@ -249,14 +251,8 @@ func runColumnTable(c *Ctx, onlyTypes map[string]bool) {
 			default:
 				allowed := kindCalls[kind]
 				for _, cl := range calls {
-					found := false
-					for _, a := range allowed {
-						if a == cl {
-							found = true
-						}
-					}
-					if !found {
-						bad = fmt.Sprintf("value passes through %s, which is not a transformer allowed for a %s column (%v)", cl, kind, allowed)
+					if !b.classAllowed(cl, allowed) {
+						bad = fmt.Sprintf("value passes through %s %s, which is not a transformer allowed for a %s column (%v)", cl, b.classOf[cl], kind, allowed)
 					}
 				}
 				if len(allowed) > 0 && len(calls) == 0 {
@@ -362,14 +358,33 @@ func runTimeFormulas(c *Ctx) {
 			if perr != "" {
 				ok, why = false, perr
 			} else {
-				want := map[string]int64{"pieces[0]": 3600 * 1e9, "pieces[1]": 60 * 1e9, "pieces[2]": 1e9}
+				// three distinct terms with the coefficients of hours, minutes, seconds; when the terms are the elements
+				// of the array the pieces are accumulated in, they are elements 0, 1, 2 in that order
+				want := map[string]int64{"piece[0]": 3600 * 1e9, "piece[1]": 60 * 1e9, "piece[2]": 1e9}
 				ok = len(poly) == len(want)
-				for k, v := range want {
-					if poly[k] != v {
-						ok = false
+				indexed := false
+				for k := range poly {
+					if strings.HasPrefix(k, "piece[") {
+						indexed = true
 					}
 				}
-				why = fmt.Sprintf("result is %v; expected 3600e9*pieces[0] + 60e9*pieces[1] + 1e9*pieces[2] (hours are not reduced modulo 24)", poly)
+				if indexed {
+					for k, v := range want {
+						if poly[k] != v {
+							ok = false
+						}
+					}
+				} else {
+					seen := map[int64]bool{}
+					for k, v := range poly {
+						if k == "" {
+							ok = false
+						}
+						seen[v] = true
+					}
+					ok = ok && seen[3600*1e9] && seen[60*1e9] && seen[1e9]
+				}
+				why = fmt.Sprintf("result is %v; expected 3600e9*hours + 60e9*minutes + 1e9*seconds (hours are not reduced modulo 24)", poly)
 			}
 		}
 		c.Check(ok, "TIME", fname, "H:MM:SS as seconds", p.pos(f.Pos()), "returns (3600*h + 60*m + s) * time.Second, linear in the three pieces", why)
@@ -499,11 +514,8 @@ func polyOf(v ssa.Value, d int) (map[string]int64, string) {
 			// load of pieces[k]
 			if ia, ok := x.X.(*ssa.IndexAddr); ok {
 				if k, isC := constInt(ia.Index); isC {
-					name := "elem"
-					if a, isA := ia.X.(*ssa.Alloc); isA {
-						name = a.Comment
-					}
-					return map[string]int64{fmt.Sprintf("%s[%d]", name, k): 1}, ""
+					// an element of a local array (whatever the array is called)
+					return map[string]int64{fmt.Sprintf("piece[%d]", k): 1}, ""
 				}
 			}
 			return map[string]int64{descr(x): 1}, ""
@@ -534,6 +546,7 @@ type fileRow struct {
 	action   *ast.FuncLit
 	post     *ast.FuncLit
 	calls    []string // parse functions called by the action
+	callees  []*ssa.Function
 	reads    []string // result fields / shared maps read
 	writes   []string // result fields / shared maps written
 	pos      token.Pos
@@ -576,19 +589,27 @@ func runFileTable(c *Ctx) {
 				if !ok {
 					continue
 				}
-				switch k.Key.(*ast.Ident).Name {
-				case "File":
-					if tv, ok := pk.TypesInfo.Types[k.Value]; ok && tv.Value != nil {
-						row.name = strings.Trim(tv.Value.ExactString(), "\"")
+				// the row's fields by the type of their value (the field names of this local struct are free): the
+				// file constant, the optional flag, the per-file action func(*csv.File) ..., the parameterless post-step
+				tv, hasT := pk.TypesInfo.Types[k.Value]
+				if !hasT {
+					continue
+				}
+				switch {
+				case typeName(tv.Type) == "constants.StaticFile" && tv.Value != nil:
+					row.name = strings.Trim(tv.Value.ExactString(), "\"")
+				case tv.Value != nil && tv.Value.Kind() == constant.Bool:
+					row.optional = constant.BoolVal(tv.Value)
+				default:
+					if fl, isFL := k.Value.(*ast.FuncLit); isFL {
+						if sig, isSig := tv.Type.Underlying().(*types.Signature); isSig {
+							if sig.Params().Len() == 0 {
+								row.post = fl
+							} else {
+								row.action = fl
+							}
+						}
 					}
-				case "Optional":
-					if id, ok := k.Value.(*ast.Ident); ok && id.Name == "true" {
-						row.optional = true
-					}
-				case "Action":
-					row.action, _ = k.Value.(*ast.FuncLit)
-				case "PostProcess":
-					row.post, _ = k.Value.(*ast.FuncLit)
 				}
 			}
 			for _, fl := range []*ast.FuncLit{row.action, row.post} {
@@ -598,10 +619,15 @@ func runFileTable(c *Ctx) {
 				ast.Inspect(fl, func(n ast.Node) bool {
 					switch x := n.(type) {
 					case *ast.CallExpr:
-						if id, ok := x.Fun.(*ast.Ident); ok && strings.HasPrefix(id.Name, "parse") {
-							row.calls = append(row.calls, id.Name)
-							for _, a := range x.Args {
-								row.reads = append(row.reads, types.ExprString(a))
+						if id, ok := x.Fun.(*ast.Ident); ok {
+							if fo, isFn := pk.TypesInfo.Uses[id].(*types.Func); isFn && fo.Pkg() != nil && fo.Pkg().Path() == modPath {
+								row.calls = append(row.calls, id.Name)
+								if sf := p.SSA.FuncValue(fo); sf != nil {
+									row.callees = append(row.callees, sf)
+								}
+								for _, a := range x.Args {
+									row.reads = append(row.reads, types.ExprString(a))
+								}
 							}
 						}
 					case *ast.AssignStmt:
@@ -620,14 +646,15 @@ func runFileTable(c *Ctx) {
 		c.Undecided("A5", "gtfs.ParseStatic", "file table", p.pos(fd.Pos()), "the composite literal driving the parse was not found (range over a []struct literal)")
 		return
 	}
+	// each file is handled by the function that reads that file's own columns (whatever the function is called)
 	want := map[string]struct {
-		fn       string
+		fn       string // a column only this file has
 		optional bool
 	}{
-		"agency.txt": {"parseAgencies", false}, "routes.txt": {"parseRoutes", false}, "stops.txt": {"parseStops", false},
-		"transfers.txt": {"parseTransfers", true}, "calendar.txt": {"parseCalendar", true}, "calendar_dates.txt": {"parseCalendarDates", true},
-		"shapes.txt": {"parseShapes", true}, "trips.txt": {"parseScheduledTrips", false}, "frequencies.txt": {"parseFrequencies", true},
-		"stop_times.txt": {"parseScheduledStopTimes", false},
+		"agency.txt": {"agency_timezone", false}, "routes.txt": {"route_type", false}, "stops.txt": {"stop_lat", false},
+		"transfers.txt": {"from_stop_id", true}, "calendar.txt": {"start_date", true}, "calendar_dates.txt": {"exception_type", true},
+		"shapes.txt": {"shape_pt_lat", true}, "trips.txt": {"direction_id", false}, "frequencies.txt": {"headway_secs", true},
+		"stop_times.txt": {"stop_sequence", false},
 	}
 	seen := map[string]int{}
 	for i, r := range rows {
@@ -638,8 +665,17 @@ func runFileTable(c *Ctx) {
 			c.Note("A5: file table row %q has no oracle entry (unchecked)", r.name)
 			continue
 		}
-		ok := r.action != nil && len(r.calls) >= 1 && r.calls[0] == w.fn
-		c.Check(ok, "A5", "gtfs.ParseStatic", key+" parsed by "+w.fn, p.pos(r.pos), "the row's Action calls "+w.fn, fmt.Sprintf("%s is handled by %v (expected %s) or has no Action", r.name, r.calls, w.fn))
+		ok := false
+		if r.action != nil {
+			for _, cal := range r.callees {
+				for _, g := range c.regionOf(cal) {
+					if readsColumn(g, w.fn) {
+						ok = true
+					}
+				}
+			}
+		}
+		c.Check(ok, "A5", "gtfs.ParseStatic", key+" parsed by its own reader", p.pos(r.pos), "the row's Action calls the function that reads column "+w.fn, fmt.Sprintf("%s is handled by %v, none of which reads its column %s, or it has no Action", r.name, r.calls, w.fn))
 		c.Check(r.optional == w.optional, "A5", "gtfs.ParseStatic", key+" optional="+fmt.Sprint(w.optional), p.pos(r.pos), "presence requirement as in GTFS", fmt.Sprintf("%s optional=%v, GTFS says optional=%v", r.name, r.optional, w.optional))
 	}
 	for name := range want {
@@ -695,7 +731,7 @@ func runFileTable(c *Ctx) {
 func runOneAppendPerRow(c *Ctx) {
 	p := c.P
 	for _, fn := range staticParseFns(c) {
-		if !strings.HasPrefix(fn.Name(), "parse") || fn.Parent() != nil {
+		if fn.Parent() != nil || fnPkgPath(fn) != modPath {
 			continue
 		}
 		for _, l := range naturalLoops(fn) {
